@@ -62,6 +62,7 @@ type sim struct {
 	noAuto bool
 	saved  map[int]int
 	gcUniv bool // the universe with referrers (blob 7 is a proper manifest there)
+	entries map[int]bool // observed states only: every blob index.json has an entry for
 }
 
 func newSim() *sim { return &sim{blobs: map[int]bool{}, tags: map[int]int{}, saved: map[int]int{}} }
@@ -724,8 +725,12 @@ func observed(root string, sc *ck.Script) *sim {
 			s.blobs[id] = true
 		}
 	}
+	s.entries = map[int]bool{}
 	if idx, st := ck.ReadRawIndex(root); st == "ok" {
 		for _, m := range idx.Manifests {
+			if id, ok := byHex[m.Digest[strings.IndexByte(m.Digest, ':')+1:]]; ok {
+				s.entries[id] = true
+			}
 			if r, ok := m.Annotations["org.opencontainers.image.ref.name"]; ok && strings.HasPrefix(r, "t") {
 				if v, err := strconv.Atoi(r[1:]); err == nil {
 					if id, ok := byHex[m.Digest[strings.IndexByte(m.Digest, ':')+1:]]; ok {
@@ -766,6 +771,109 @@ func (p *prepared) truth(sc *ck.Script, hist []ck.Op, final ck.Op, scriptPath st
 	before := observed(root, sc)
 	os.RemoveAll(filepath.Dir(root))
 	return before, after, true
+}
+
+// ---------- independent ground truth for GC / Delete-with-AutoGC on universeGC ----------
+// (audit F5: the before/after states of these calls are observed on the implementation;
+// what MUST survive and, for GC, exactly what survives is computed here from the
+// generator's own edges, so a cascade or sweep that removes tagged or live content is
+// reported although the model follows the recorded unlink list)
+var gcSucc = map[int][]int{4: {3}, 5: {3, 4}, 6: {3, 5}, 7: {3, 1}} // config, layers, subject
+var gcSubject = map[int]int{5: 4, 6: 5}
+
+func closure(roots []int, present map[int]bool) map[int]bool {
+	live := map[int]bool{}
+	var visit func(int)
+	visit = func(x int) {
+		if live[x] {
+			return
+		}
+		live[x] = true // a tagged node is kept whether or not its file exists
+		if present[x] {
+			for _, y := range gcSucc[x] {
+				visit(y)
+			}
+		}
+	}
+	for _, r := range roots {
+		visit(r)
+	}
+	return live
+}
+
+// gcLive: reference mark phase of Store.GC: the closure of the named-tagged nodes, then,
+// until nothing changes, every manifest that index.json knows whose subject chain reaches
+// a live node, with its closure.
+func gcLive(before *sim) map[int]bool {
+	var roots []int
+	for _, b := range before.tags {
+		roots = append(roots, b)
+	}
+	live := closure(roots, before.blobs)
+	for changed := true; changed; {
+		changed = false
+		for m := range before.entries {
+			if live[m] || !before.blobs[m] {
+				continue
+			}
+			for cur := m; ; {
+				sub, ok := gcSubject[cur]
+				if !ok || !before.blobs[cur] {
+					break
+				}
+				if live[sub] {
+					for x := range closure([]int{m}, before.blobs) {
+						live[x] = true
+					}
+					changed = true
+					break
+				}
+				cur = sub
+			}
+		}
+	}
+	return live
+}
+
+func refCheck(sc *ck.Script, before, after *sim) []failure {
+	var fails []failure
+	add := func(sig, f string, a ...any) { fails = append(fails, failure{sig, fmt.Sprintf(f, a...)}) }
+	if !gcUniverse(sc) || before == nil || before.entries == nil {
+		return nil
+	}
+	o := sc.Final
+	switch {
+	case o.Kind == "gc":
+		live := gcLive(before)
+		for id := range before.blobs {
+			if live[id] && !after.blobs[id] {
+				add("gc-removed-live", "GC removed blob %d, which the reference mark phase keeps", id)
+			}
+			if !live[id] && after.blobs[id] {
+				add("gc-kept-garbage", "GC kept blob %d, which the reference mark phase sweeps", id)
+			}
+		}
+		if before.tagString(sc) != after.tagString(sc) {
+			add("gc-changed-tags", "GC changed the tag mapping {%s} -> {%s}", before.tagString(sc), after.tagString(sc))
+		}
+	case o.Kind == "delete" && sc.AutoGC:
+		// named tags: exactly those of the target disappear
+		for r, b := range before.saved {
+			if b != o.Blob && after.saved[r] != b {
+				add("cascade-removed-tag", "Delete(%d) with AutoGC removed tag t%d of blob %d", o.Blob, r, b)
+			}
+		}
+		var roots []int
+		for _, b := range after.saved {
+			roots = append(roots, b)
+		}
+		for id := range closure(roots, before.blobs) {
+			if id != o.Blob && before.blobs[id] && !after.blobs[id] {
+				add("cascade-removed-live", "Delete(%d) with AutoGC removed blob %d, which a tagged manifest still reaches", o.Blob, id)
+			}
+		}
+	}
+	return fails
 }
 
 // execSegment runs one earlier process on the prepared directory: history, then
@@ -946,7 +1054,8 @@ func runMain(sc *ck.Script, p *prepared, onlyK int, allK bool) {
 	}
 	// the completed run: effects of everything that returned are present
 	finalState := ck.ObserveDir(rec, sc, sizes)
-	emit(outcome{k: len(win), j: len(steps), steps: recText, state: finalState, fails: oracle(rec, sc, after, after)})
+	emit(outcome{k: len(win), j: len(steps), steps: recText, state: finalState,
+		fails: append(oracle(rec, sc, after, after), refCheck(sc, before, after)...)})
 	run.Sample(map[string]any{"final": sc.Final.String(), "history": len(sc.History), "earlier_crashes": len(sc.Pre),
 		"window_syscalls": len(win), "micro_steps": stepsText(steps)})
 
